@@ -12,6 +12,7 @@ import (
 
 	"verif/harness/checks"
 	"verif/harness/core"
+	"verif/harness/run"
 )
 
 func main() {
@@ -51,6 +52,10 @@ func main() {
 			c.Work = core.Root + "/.work/" + ch.ID
 		}
 		os.MkdirAll(c.Work, 0o755)
+		run.OnAbandon = func() {
+			c.Inconclusive("job-servers", "the watchdog expired on 40 jobs of the in-process back-end; the run was ended early, the cases after that point were not run")
+			os.Exit(c.Finish())
+		}
 		ch.Run(c)
 		os.Exit(c.Finish())
 	case "replay":
